@@ -137,6 +137,41 @@ def hier_program(depth, kind="class"):
     return src, exp, {"ord": True, "hash": True}
 
 
+def hash_program(shape):
+    """Sets and dicts keyed by the model: equal values must collapse, membership must follow structural equality."""
+    fields = [f"f{i}" for i in range(len(shape))]
+    decl = "@derive(Debug, Clone, Eq, Hash)\nmodel Rec:\n" + "".join(f"    {f}: {TYPES[t][0]}\n" for f, t in zip(fields, shape))
+    base = [TYPES[t][1][0] for t in shape]
+    tuples = [list(base)]
+    for i, t in enumerate(shape):
+        for alt in TYPES[t][1][1:]:
+            tup = list(base)
+            tup[i] = alt
+            if tup not in tuples:
+                tuples.append(tup)
+    tuples = tuples[:5]
+
+    def ctor(tup):
+        return "Rec(" + ", ".join(f"{f}={lit}" for f, (lit, _) in zip(fields, tup)) + ")"
+
+    def key(tup):
+        return tuple(tuple(v) if isinstance(v, list) else v for _, v in tup)
+
+    elems = tuples + [tuples[0], tuples[-1]]  # duplicates written as fresh constructor expressions
+    lines = ["hs = {" + ", ".join(ctor(t) for t in elems) + "}", "println(len(hs))"]
+    exp = [str(len({key(t) for t in elems}))]
+    lines.append("dm = {" + ", ".join(f"{ctor(t)}: {k}" for k, t in enumerate(elems)) + "}")
+    lines.append("println(len(dm))")
+    exp.append(str(len({key(t) for t in elems})))
+    members = {key(t) for t in tuples[:-1]}
+    lines.append("hs2 = {" + ", ".join(ctor(t) for t in tuples[:-1]) + "}")
+    for t in tuples:
+        lines.append(f"println({ctor(t)} in hs2)")
+        exp.append("true" if key(t) in members else "false")
+    src = decl + "\n\ndef main() -> None:\n" + "\n".join("    " + l for l in lines) + "\n"
+    return src, exp, {"ord": False, "hash": True}
+
+
 def json_line_equal(got, want):
     """Field order of the top-level object is textual; nested dict key order is not fixed (hash map)."""
     if got == want:
@@ -159,6 +194,10 @@ def run(tier):
     for shape in shapes(tier):
         src, exp, caps = build_program(shape)
         cases.append((shape, src, exp, caps))
+    for shape in shapes(tier):
+        if all(t in HASHABLE for t in shape) and len(shape) <= 2:
+            src, exp, caps = hash_program(shape)
+            cases.append((("hash",) + tuple(shape), src, exp, caps))
     for depth in (1, 2, 3):
         src, exp, caps = hier_program(depth)
         cases.append((("class-hierarchy", f"depth{depth}"), src, exp, caps))
@@ -168,7 +207,7 @@ def run(tier):
     clone_dropped = []
     for i, c in enumerate(cases):
         errs = [] if fr[i].get("crashed") else fr[i]["check"]["errs"]
-        if errs and all("has no method 'clone" in m for m, _, _ in errs) and c[0][0] != "class-hierarchy":
+        if errs and all("has no method 'clone" in m for m, _, _ in errs) and c[0][0] not in ("class-hierarchy", "hash"):
             src, exp, caps = build_program(c[0], with_clone=False)
             cases[i] = (c[0], src, exp, caps)
             clone_dropped.append("+".join(c[0]))
@@ -212,7 +251,7 @@ def run(tier):
         "evaluations": n_lines,
         "distinct_nontrivial": len(sig_ok),
         "rule": "model shapes: every single field type of {int, bool, str, str with JSON-escape classes, float, List[int], Option[int], Option[str], Dict[str,int]}, 8 two-field and "
-        "2 three-field shapes (thorough: all ordered pairs and 5 triples), and class hierarchies 1, 2 and 3 levels deep (one int field per level, all 0/1 value vectors, all ordered pairs compared); values: one field varied at a time over its alphabet plus the all-last tuple (<= 7 values per shape); "
+        "2 three-field shapes (thorough: all ordered pairs and 5 triples), and class hierarchies 1, 2 and 3 levels deep (one int field per level, all 0/1 value vectors, all ordered pairs compared), and, per hashable shape, a set and a dict keyed by the model with duplicate and distinct values (len and membership); values: one field varied at a time over its alphabet plus the all-last tuple (<= 7 values per shape); "
         "observations per value: json_stringify text, from_json round trip (text and ==), key-permuted input, pairwise == and <, clone equality; evaluations = output lines compared; "
         "non-trivial = shapes whose whole program built, ran and matched",
         "samples": [{"shape": list(c[0]), "program": c[1]} for c in common.pick_samples(cases)],
